@@ -291,6 +291,79 @@ pub fn run(rep: &mut Rep) {
     second_connection(rep, &reqs, idx);
     largest_packets(rep);
     abandoned_oversized(rep, &reqs);
+    identical_requests(rep);
+}
+
+/// Requests that encode to the same bytes (pings; the same unsubscribe / subscribe / QoS 0 publish twice) are still one request
+/// each: every one that fits is written in full, also while its twin is waiting for the answer.
+fn identical_requests(rep: &mut Rep) {
+    rep.note("identical requests: 2-3 pings / identical QoS 0 publishes / subscribes / unsubscribes for the same filter outstanding at once (queued while the context is held, or one after the other without an answer), M in {absent, L, L+1, 2^32-1}: each is written in full; M = L-1: each refused, nothing written");
+    let mut idx = 9_700_000u64;
+    let kinds: Vec<(&str, OpSpec)> = vec![
+        ("ping", OpSpec::Ping),
+        ("pub0", OpSpec::Publish(PubSpec::simple(0, "same", b"same"))),
+        ("sub", OpSpec::Subscribe(SubSpec::simple("same/filter"))),
+        ("unsub", OpSpec::Unsubscribe(UnsubSpec::simple("same/filter"))),
+    ];
+    for (name, spec) in &kinds {
+        let mut twin = session(rep.seed, None, None);
+        let t0 = twin.written_len();
+        twin.start_op(0, spec.clone());
+        twin.settle();
+        let l = (twin.written_len() - t0) as u32;
+        for m in [None, Some(l), Some(l + 1), Some(u32::MAX), Some(l - 1)] {
+            for n in [2usize, 3] {
+                for queued in [true, false] {
+                    let id = format!("identical:{name}:{:?}:{n}:{}", m, queued as u8);
+                    idx += 1;
+                    if !rep.take(idx, &id) {
+                        continue;
+                    }
+                    let mut sim = session(rep.seed, m, None);
+                    let w0 = sim.written_len();
+                    if queued {
+                        sim.hold_ctx = true;
+                    }
+                    let mut ops = Vec::new();
+                    for _ in 0..n {
+                        ops.push(sim.start_op(0, spec.clone()));
+                        sim.settle();
+                    }
+                    if queued {
+                        sim.hold_ctx = false;
+                        sim.settle();
+                    }
+                    let wrote = sim.written_len() - w0;
+                    rep.add("evaluations", 1);
+                    rep.add("identical_request_cases", 1);
+                    rep.distinct(&("identical", name, m, n, queued));
+                    for p in sim.panics.clone() {
+                        viol(rep, format!("C12/panic/{p}"), &id, format!("panic: {p}"), &sim);
+                    }
+                    let must_refuse = m.map(|m| l > m).unwrap_or(false);
+                    if must_refuse {
+                        let all_refused = ops.iter().all(|&o| matches!(sim.ops[o].out.as_ref().and_then(|x| x.err()), Some(ErrSum::MaximumPacketSizeExceeded)));
+                        if wrote != 0 || !all_refused {
+                            viol(rep, format!("C12/oversized-not-refused/{name}/identical"), &id, format!("L = {l} > M = {:?}, {n} identical requests: {wrote} bytes written, results {:?}", m, ops.iter().map(|&o| sim.ops[o].out.as_ref().map(|x| x.brief())).collect::<Vec<_>>()), &sim);
+                        }
+                    } else if wrote as u32 != l * n as u32 {
+                        viol(rep, format!("C12/fitting-packet-not-written-in-full/{name}/identical"), &id, format!("L = {l} <= M = {:?}: {n} identical requests outstanding at once must put {} bytes on the wire, {wrote} were written", m, l * n as u32), &sim);
+                    } else {
+                        if *name == "ping" {
+                            for _ in 0..n {
+                                sim.feed_packet(&SPacket::Pingresp);
+                                sim.settle();
+                            }
+                            if !ops.iter().all(|&o| sim.ops[o].out.as_ref().map(|x| x.is_ok()).unwrap_or(false)) {
+                                viol(rep, "C12/pending-ack-left-behind/ping/identical".into(), &id, format!("{n} pings written, {n} PINGRESP delivered: results {:?}", ops.iter().map(|&o| sim.ops[o].out.as_ref().map(|x| x.brief())).collect::<Vec<_>>()), &sim);
+                            }
+                        }
+                        rep.sample(|| format!("{id}: {n} x {l} bytes written"));
+                    }
+                }
+            }
+        }
+    }
 }
 
 /// The caller gives up on an oversized request (drops its future: a timeout around the call) after it has been queued and
